@@ -21,6 +21,22 @@ var prioValuePools = [][]uint{
 
 func genPriorities(rng *rand.Rand) []uint {
 	var out []uint
+	if rng.IntN(25) == 0 {
+		// values beyond the signed range (the divider must be able to take them: see the caller)
+		n := 1 + rng.IntN(3)
+		set := map[uint]bool{}
+		for len(set) < n {
+			set[[]uint{^uint(0), ^uint(0) - 1, 1 << 63, 1<<63 + 1, 1<<63 - 1, 1 << 62}[rng.IntN(6)]] = true
+		}
+		for p := range set {
+			out = append(out, p)
+		}
+		for _, p := range []uint{2, 1, 7}[:rng.IntN(3)] {
+			out = append(out, p)
+		}
+		sort.Slice(out, func(i, j int) bool { return out[i] > out[j] })
+		return out
+	}
 	switch k := rng.IntN(10); {
 	case k < 7:
 		pool := prioValuePools[rng.IntN(6)]
@@ -100,6 +116,12 @@ func genPrioScenario(rng *rand.Rand, g prioGen) PrioScenario {
 		prios = genPriorities(rng)
 		if try > 30 {
 			prios = []uint{3, 2, 1}
+		}
+		if prios[0] > 1<<40 && sc.Divider != "fair" && sc.Divider != "revfair" {
+			// Rate / weight based dividers sum or scale the values: beyond 2^40 only the
+			// order-based dividers are meaningful
+			sc.Divider = []string{"fair", "revfair"}[rng.IntN(2)]
+			div = customDivider(sc.Divider, sc.DivSeed)
 		}
 		if g.Mode == "addrm" {
 			for i := range prios { // keep the universe dense so that small H are non-fatal
@@ -358,7 +380,7 @@ func genPrioScenario(rng *rand.Rand, g prioGen) PrioScenario {
 		}
 		removed := []uint{}
 		emit := func() {
-			switch rng.IntN(4) {
+			switch rng.IntN(5) {
 			case 0: // add a new priority
 				p := extra[rng.IntN(len(extra))]
 				n := 1 + rng.IntN(H+2)
@@ -398,6 +420,23 @@ func genPrioScenario(rng *rand.Rand, g prioGen) PrioScenario {
 				out = append(out, POp{K: "rm", P: p})
 				present[p] = false
 				removed = append(removed, p)
+			case 3: // remove a priority that is not registered: must change nothing
+				var absent []uint
+				for _, p := range extra {
+					if !present[p] {
+						absent = append(absent, p)
+					}
+				}
+				for _, p := range prios {
+					if !present[p] {
+						absent = append(absent, p)
+					}
+				}
+				absent = append(absent, uint(1+rng.IntN(90)))
+				p := absent[rng.IntN(len(absent))]
+				if !present[p] {
+					out = append(out, POp{K: "rm", P: p})
+				}
 			default: // re-add a removed priority with a fresh channel
 				if len(removed) == 0 {
 					return
